@@ -194,7 +194,8 @@ def obligation(pid: str):
 
     def regen():
         try:
-            d = emit(os.environ.get("KV_REPO", "/repo"), os.path.join(root, "coq", rel))
+            from ..rundir import GEN as _gen
+            d = emit(os.environ.get("KV_REPO", "/repo"), os.path.join(_gen, os.path.basename(rel)))
             if d["bad"]:
                 return True, "stores to the validator object / caller-owned / module state: " + "; ".join(key(w) for w in d["bad"][:4])
             return True, ""
